@@ -15,7 +15,7 @@ def run_workers(seed, tier, only=None):
         paths[mode] = os.path.join(d, f"{mode}_{os.getpid()}.jsonl")
         e = dict(os.environ)
         e.pop("NUMBA_DISABLE_JIT", None)
-        e["NUMBA_CACHE_DIR"] = os.path.join(env.CACHE, "numba" if mode == "jit" else "numba_nojit")
+        e["NUMBA_CACHE_DIR"] = env.cache_dir(mode == "jit")
         e["PYTHONHASHSEED"] = "0"
         cmd = [sys.executable, "-m", "harness.jitdiff", mode, str(seed), tier, paths[mode]] + ([only] if only else [])
         procs.append((mode, subprocess.Popen(cmd, cwd=VERIF, env=e, stdout=subprocess.PIPE, stderr=subprocess.STDOUT, text=True)))
